@@ -282,6 +282,8 @@ def main():
                        'np.linspace is the real-arithmetic formula start + i*(stop-start)/(n-1)']
     rep.bounds = {'levels': '1-3', 'boxes_per_level': '1-4', 'fields': '1-5', 'geometry': 'symbolic reals'}
     common.run_cases(rep, run_case, cases())
+    from harness import conformance
+    conformance.run_into(rep)
     return rep.finish()
 
 
